@@ -195,6 +195,62 @@ def r3(ctx, cfg):
             rv = st.get("rv", {})
             if st["k"] == "assign" and rv.get("k") == "aggregate" and rv.get("adt") == "cosmwasm_std::BlockInfo":
                 ctx.fail(R, f.key, "fabricated-BlockInfo", "a BlockInfo is constructed in %s" % f.key, fn=f, line=st["line"])
+    # "the simulator's current block": what set_block / update_block are given becomes App.block on every path (an early
+    # return in front of the assignment - "the chain did not move" - leaves contracts with a stale chain id)
+    def block_field_writes(fn):
+        out = []
+        for b2, i2, st2 in fn.stmts():
+            if st2["k"] == "assign" and [e["k"] for e in st2["dst"]["p"]][:2] == ["deref", "field"] and \
+                    st2["dst"]["p"][1].get("name") == "block" and len(st2["dst"]["p"]) == 2:
+                base = peel(P.local(fn, st2["dst"]["l"], (b2, i2)))
+                while base[0] == "upd":
+                    base = peel(base[1])
+                if is_param(base, "self"):       # (`self` itself or the reborrow a spliced helper received)
+                    out.append((b2, i2, st2))
+        return out
+    key = "app::App::set_block"
+    f = ctx.need_fn(R, key)
+    if f is not None:
+        cf = cfg_of(f)
+        ws = [(b2, P.rvalue(f, st2["rv"], (b2, i2))) for b2, i2, st2 in block_field_writes(f)]
+        ok = any(is_param(v, "block") and all(cf.must_pass(b2, r) for r in cf.return_blocks()) for b2, v in ws) and all(is_param(v, "block") for b2, v in ws)
+        ctx.ob(R, key, "argument-becomes-the-current-block-on-every-path", ok,
+               "set_block does not store its argument as App.block on every path (writes: %s)" % [fmt(v)[:40] for b2, v in ws], fn=f,
+               sample="self.block = block dominates every return")
+    key = "app::App::update_block"
+    f = ctx.need_fn(R, key)
+    if f is not None:
+        cf = cfg_of(f)
+        calls = [(b2, t2) for b2, t2 in f.calls() if t2["callee"].get("trait") in ("std::ops::Fn", "std::ops::FnMut", "std::ops::FnOnce") and
+                 is_param(P.call_args(f, t2, b2)[0], "action")]
+        ok = len(calls) == 1
+        d = "%d action calls" % len(calls)
+        if ok:
+            ab, at = calls[0]
+            tup = peel(P.call_args(f, at, ab)[1])
+            tgt = peel(tup[2][0][1]) if tup[0] == "agg" and len(tup[2]) == 1 else ("?",)
+            while tgt[0] == "upd":
+                tgt = peel(tgt[1])
+            every = all(cf.must_pass(ab, r) for r in cf.return_blocks())
+            d = "action(%s)" % fmt(tgt)[:60]
+            raw = tup[2][0][1] if tup[0] == "agg" and len(tup[2]) == 1 else ("?",)
+            copied = contains(raw, lambda x: x[0] == "vp" and x[1] in ("clone", "to_owned"))
+            if tgt[0] == "field" and tgt[2] == "block" and is_param(tgt[1], "self") and not copied:
+                # in place: action(&mut self.block)
+                ok = every and not block_field_writes(f)
+            else:
+                # on a copy of the current block that is then stored: every return passes `self.block = <that copy, mutated by action>`
+                ws = [(b2, P.rvalue(f, st2["rv"], (b2, i2))) for b2, i2, st2 in block_field_writes(f)]
+
+                def is_mutated_copy(v):
+                    return contains(v, lambda x: x[0] == "mutby" and x[3] == (f.key, ab)) and \
+                        contains(v, lambda x: x[0] == "field" and x[2] == "block" and is_param(x[1], "self"))
+                ok = every and bool(ws) and all(is_mutated_copy(v) for b2, v in ws) and \
+                    any(all(cf.must_pass(b2, r) for r in cf.return_blocks()) for b2, v in ws)
+                d += "; writes %s" % [fmt(v)[:50] for b2, v in ws]
+        ctx.ob(R, key, "action-result-becomes-the-current-block-on-every-path", ok,
+               "update_block does not apply `action` to the current block and keep the result on every path (%s)" % d, fn=f,
+               sample="action(&mut self.block) dominates every return")
     key = "app::RouterQuerier::new"
     f = ctx.need_fn(R, key)
     if f is not None:
